@@ -23,7 +23,10 @@ RULE = ('generated directories covering every single-factor variation and random
         'seconds given as exact dyadic rationals whose product with the rate has fractional part .25/.5/.75 (samples = '
         'round half to even); channel positions that are not all distinct (linear layout); two candidate names for one '
         'attribute; labelled ALF names incl. templates.waveforms.<label>.npy; raw files with trailing bytes; traces '
-        'indexed by slices / lists / integers; template_scaling with template accesses followed by a re-inspection. '
+        'indexed by slices / lists / integers; template_scaling with template accesses followed by a re-inspection; '
+        'feature tables stored for a subset of the spikes (pc_feature_spike_ids), template features with and without '
+        'their column / row tables, NaN/inf cells in memory-mapped tables; datasets without templates; sparse '
+        'templates with one local channel. '
         'Every stored dimension >= 2 (size-1 dimensions are squeezed away by the loader: out of scope). '
         'non-trivial = every case')
 ASSUMPTIONS = ['np.linalg.inv is opaque (whitening matrices are diagonal powers of two; wm . wmi = I is checked numerically)',
@@ -86,6 +89,9 @@ def _raw_bytes(case):
 def _collect(m, case):
     def A(x):
         return None if x is None else _cells(x)
+
+    def S(b):
+        return None if b is None else dict(data=A(b.data), cols=A(b.get('cols', None)), rows=A(b.get('rows', None)))
     out = dict(
         spike_samples=[int(x) for x in m.spike_samples], spike_times=[float(x) for x in m.spike_times],
         amplitudes=A(m.amplitudes), spike_templates=A(m.spike_templates), spike_clusters=A(m.spike_clusters),
@@ -99,9 +105,7 @@ def _collect(m, case):
         spike_attributes={k: _cells(v) for k, v in m.spike_attributes.items()},
         metadata={f: {str(k): v for k, v in dd.items()} for f, dd in m.metadata.items()},
         n_spikes=int(m.n_spikes), n_channels=int(m.n_channels), n_templates=int(m.n_templates), duration=float(m.duration),
-        features=A(m.sparse_features.data) if m.sparse_features is not None else None,
-        feature_cols=A(m.sparse_features.cols) if m.sparse_features is not None and m.sparse_features.cols is not None else None,
-        tfeatures=A(m.sparse_template_features.data) if m.sparse_template_features is not None else None)
+        features=S(m.sparse_features), template_features=S(m.sparse_template_features))
     if m.traces is not None:
         n = m.traces.shape[0]
         out['n_samples'] = int(n)
@@ -321,6 +325,10 @@ def judge(case, impl_res, ans):
         return 'SPEC: inverse whitening matrix differs from the stored file'
     if not ok['wm_wmi_identity'] and (('whitening_mat.npy' in case['files']) or ('whitening_mat_inv.npy' not in case['files'])):
         return 'SPEC: wmi is not the inverse of wm'
+    # feature tables: stored arrays with the principal-component axes exchanged, memory-mapped (not scrubbed)
+    for key in ('features', 'template_features'):
+        if ok[key] != m[key]:
+            return 'SPEC: %s %s differ from the stored tables %s' % (key, str(ok[key])[:200], str(m[key])[:200])
     # extra per-spike attributes
     if ok['spike_attributes'] != m['spike_attributes']:
         return 'SPEC: extra per-spike attributes %s, expected %s' % (
@@ -528,6 +536,32 @@ def make_case(rng, i):
         files['pc_features.npy'] = F('float32', [ns, npcs, nl], [float(rng.randrange(-4, 5)) for _ in range(ns * npcs * nl)])
         files['pc_feature_ind.npy'] = F('uint32', [nt, nl], [c for _ in range(nt) for c in rng.sample(range(nc), nl)])
         tags.append('features')
+    if 'features' in tags and rng.random() < .5:
+        # features stored for a subset of the spikes only, with the table of their spike ids; non-finite cells
+        # stay as they are (the array is memory-mapped)
+        nf = rng.randrange(2, ns + 1)
+        pf = files['pc_features.npy']
+        nl_ = pf['shape'][2]
+        data = [float(rng.randrange(-4, 5)) for _ in range(nf * 2 * nl_)]
+        if rng.random() < .5:
+            data[rng.randrange(len(data))] = rng.pick(['nan', 'inf'])
+        files['pc_features.npy'] = F('float32', [nf, 2, nl_], data)
+        files['pc_feature_spike_ids.npy'] = F(rng.pick(['int64', 'uint32']), rng.pick([[nf], [nf, 1]]), sorted(rng.sample(range(ns), nf)))
+        tags.append('feature_spike_ids')
+    if rng.random() < .3:
+        ntf = rng.randrange(2, nt + 1)
+        nf = rng.pick([ns, rng.randrange(2, ns + 1)])
+        data = [float(rng.randrange(-4, 5)) for _ in range(nf * ntf)]
+        if rng.random() < .3:
+            data[rng.randrange(len(data))] = rng.pick(['nan', 'inf'])
+        files['template_features.npy'] = F('float32', [nf, ntf], data)
+        tags.append('template_features')
+        if rng.random() < .7:
+            files['template_feature_ind.npy'] = F('uint32', [nt, ntf], [c for _ in range(nt) for c in rng.sample(range(nt), ntf)])
+            tags.append('template_feature_ind')
+        if nf != ns or rng.random() < .3:
+            files['template_feature_spike_ids.npy'] = F('int64', [nf], sorted(rng.sample(range(ns), nf)))
+            tags.append('template_feature_spike_ids')
     if rng.random() < .3:
         files['spike_extra.npy'] = F('float64', v(ns), [float(rng.randrange(9)) for _ in range(ns)]); tags.append('extra_attr')
         if rng.random() < .5:
@@ -550,10 +584,12 @@ def make_case(rng, i):
     if i % 29 == 13:
         # no template file at all (and no curation): n_templates = highest template id + 1, zeros for the similarity
         for n_ in [n for n in list(files) if n.startswith(('templates.', 'template_ind', 'spike_clusters', 'spikes.clusters',
-                                                           'pc_feature', 'similar_templates'))]:
+                                                           'pc_feature', 'similar_templates', 'template_feature'))]:
             del files[n_]
         tags[:] = [t for t in tags if t not in ('all_nan_template', 'some_nan_in_template', 'nan_channel_in_template',
-                                                'sparse_templates', 'sparse_one_local_channel', 'features', 'similar', 'nan_in_similar')]
+                                                'sparse_templates', 'sparse_one_local_channel', 'features', 'similar', 'nan_in_similar',
+                                                'feature_spike_ids', 'template_features', 'template_feature_ind',
+                                                'template_feature_spike_ids')]
         if 'no_spike_clusters' not in tags:
             tags.append('no_spike_clusters')
         tags.append('no_templates')
